@@ -171,7 +171,6 @@ func fixedCases() []corr.Case {
 	// malformed lines
 	out = append(out,
 		mk("malformed", "init 1 pipe", "conn", "send 0", "send 0 zz", "send 0 abc", "close 7", "close", "frob 0", "init 1", "init x pipe", "init 1 udp", "conn 0", "send -1 aa", ""),
-		mk("malformed", "conn", "close 0"),
 	)
 	return out
 }
